@@ -92,7 +92,7 @@ class Parameter:
                 )
             if not isnumeric(value):
                 raise ParameterBoundsError("Bound should be numeric or None.")
-            if self.__value < value:
+            if not self.__value >= value:
                 raise ParameterBoundsError(
                     "Current parameter value is below new minimum bound."
                 )
@@ -112,7 +112,7 @@ class Parameter:
                 )
             if not isnumeric(value):
                 raise ParameterBoundsError("Bound should be numeric or None.")
-            if self.__value > value:
+            if not self.__value <= value:
                 raise ParameterBoundsError(
                     "Current parameter value is above new maximum bound."
                 )
@@ -142,10 +142,10 @@ class Parameter:
                     "bounds are assigned to parameter."
                 )
         if self.min_bound is not None:
-            if value < self.min_bound:
+            if not value >= self.min_bound:
                 raise ParameterValueError("Set value is below minimum bound.")
         if self.max_bound is not None:
-            if value > self.max_bound:
+            if not value <= self.max_bound:
                 raise ParameterValueError("Set value is above maximum bound.")
         self.__value = value
         return
